@@ -218,5 +218,16 @@ func H10Live() {
 	c, errs := NewStdKeyBuilderEx(true).Compile("{time " + kw + "}")
 	zz.Assert(errs == nil && c != nil, "does not compile")
 	_ = c.BuildKey(&zzCtx{})
+	if kw == "now" {
+		// {time now} is the time of compilation: a constant, so the folded and
+		// the unfolded expression agree whenever they are evaluated
+		cu, erru := NewStdKeyBuilderEx(false).Compile("{time now}")
+		zz.Assert(erru == nil && cu != nil, "does not compile unoptimised")
+		v1 := st(&zzCtx{})
+		o1, u1 := c.BuildKey(&zzCtx{}), cu.BuildKey(&zzCtx{})
+		zz.ClockAdvance() // the clock moves on by a second or more
+		zz.Assert(st(&zzCtx{}) == v1, "{time now} changes between evaluations although it is reported constant")
+		zz.Assert(c.BuildKey(&zzCtx{}) == o1 && cu.BuildKey(&zzCtx{}) == u1, "{time now}: optimised or unoptimised expression changes between evaluations")
+	}
 	zz.Reached()
 }
